@@ -93,6 +93,12 @@ def both_scenarios():
         sc[name] = base(evs, [["F"], ["Mi"]], dict(
             fshocks=[dict(target=ft, session=0, triggerTime=1, length=2, rate=0.5, enabled=True)],
             mshocks=[dict(target=mt, session=1, triggerTime=1, rate=-0.5, volume=5, lifetime=2, enabled=True)]), name)
+    # a price limit rule with a band too wide to clip anything (its before-order hook is un-timed) next to the shock
+    for target, first in (("M0", "M1"), ("M1", "M0")):
+        name = "mistake+limit:%s" % target
+        evs = {"PL": {"class": "PriceLimitRule", "targetMarkets": ["M0", "M1"], "triggerChangeRate": 0.9375},
+               "Mi": {"class": "OrderMistakeShock", "target": target, "triggerTime": 1, "priceChangeRate": -0.5, "orderVolume": 5, "orderTimeLength": 2}}
+        sc[name] = base(evs, [["PL", "Mi"], []], dict(mshocks=[dict(target=target, session=0, triggerTime=1, rate=-0.5, volume=5, lifetime=2, enabled=True)]), name)
     return sc
 
 
